@@ -30,6 +30,11 @@ def cells(tier, seed):
                             "group": ["m", R, D], "cost": D})
                 out.append({"part": "linsum", "diag": diag, "R": R, "D": D,
                             "group": ["l", R, D], "cost": D})
+        if tier == "quick":
+            # one larger dimension: almost all coordinates kept (where a Schur-complement route
+            # from the joint precision would pay off) and few kept
+            out.append({"part": "marginal", "diag": diag, "R": 2, "D": 7, "tier": "quick-large",
+                        "group": ["m", 2, 7], "cost": 4})
     return out
 
 
@@ -44,6 +49,11 @@ def _call(rec, what, fn, info):
 
 
 def index_lists(rng, D, tier):
+    if tier == "quick-large":
+        lists = []
+        for k in (D - 1, D - 1, D - 2, 2, 1):
+            lists.append(list(rng.permutation(D)[:k]))
+        return lists
     lists = []
     for k in range(1, D + 1):
         combos = list(itertools.combinations(range(D), k))
@@ -134,7 +144,9 @@ def run_cell(cell, rec, seed):
     else:
         for Ds in range(1, D + 1):
             for with_b in (True, False):
-                for Rw in (R,):  # documented shape of W is [R, Dsum, D]
+                # documented shape of W is [R, Dsum, D]; one weight matrix shared by all components
+                # ([1, Dsum, D], the form the library itself passes for its kernels) broadcasts
+                for Rw in ((R, 1) if R > 1 else (R,)):
                     inf = dict(info, Dsum=Ds, with_b=with_b, R_W=Rw)
                     W = gen.lin_map(rng, Rw, Ds, D)
                     b = gen.vec(rng, Rw, Ds)
